@@ -411,9 +411,10 @@ def bind(kind):
         r.hook('pgpy.types.Fingerprint', 'keyid', scn.const(E.VStr(z=KEYID)))
         r.hook(KEY, 'key_algorithm', lambda ex, st, o, a: [(st, E.VExt('alg-of-' + o.ref, ()))])
         i_am_primary = kind != 'primary-key-binding'
+        refusing = kind.endswith('[signing-capable subkey that refuses to cross-sign]')
         r.hook(KEY, 'is_primary', lambda ex, st, o, a: [(st, E.VBool(i_am_primary if o.ref == 'me' else not i_am_primary))])
         r.hook(KEY, 'is_public', scn.const(E.VBool(False)))
-        can_sign = kind == 'subkey-binding[signing subkey]'
+        can_sign = kind == 'subkey-binding[signing subkey]' or kind.endswith('[signing-capable subkey that refuses to cross-sign]')
         ex.hooks[('ext:alg-of-other', 'can_sign')] = lambda ex, st, o, a: [(st, E.VBool(can_sign))]
         ex.hooks[('ext:alg-of-other', 'can_sign')].is_method = False
         newsig = E.VObj(SIG, 'newsig')
@@ -436,6 +437,8 @@ def bind(kind):
 
         def other_bind(ex, st, o, a):
             st.ghost['cross_by'] = (o, a)
+            if refusing:
+                return [(st, E.Raise('PGPError', 0))]          # contract of a locked / public key asked to sign: it refuses with PGPError
             return [(st, cross)]
         r.hook(KEY, 'bind', scn.method_hook(other_bind))
 
@@ -444,9 +447,15 @@ def bind(kind):
             return [(st, a[1])]
         _sign.wants_kws = True
         r.hook(KEY, '_sign', scn.method_hook(_sign))
-        usage = E.VSet([E.VInt(KF['Sign'] if can_sign else KF['EncryptCommunications'], enum='pgpy.constants.KeyFlags')])
+        usage = E.VSet([E.VInt(KF['Sign'] if (can_sign and not refusing) else KF['EncryptCommunications'] if not refusing else KF['Authentication'], enum='pgpy.constants.KeyFlags')])
         kws = {'usage': usage} if i_am_primary else {}
         for pi, (s, v) in enumerate(r.call(me, [other], kws)):
+            if refusing:
+                # a subkey of a signing-capable algorithm that cannot make its cross-signature (locked): no binding without one, whatever
+                # usage is asked for - the refusal is passed on
+                r.oblige(s, 'the-refusal-of-the-subkey-is-passed-on(PGPError),no-binding-is-made/p%d' % pi,
+                         z3.BoolVal(isinstance(v, E.Raise) and v.exc.split(':')[0] == 'PGPError' and s.ghost.get('_sign') is None), getattr(v, 'where', None))
+                continue
             if isinstance(v, E.Raise):
                 r.oblige(s, 'safety(%s)/p%d' % (v.exc, pi), z3.BoolVal(False), v.where)
                 continue
@@ -479,7 +488,7 @@ _base3 = scenarios
 
 
 def scenarios():
-    return _base3() + [revoke(k) for k in ('uid', 'key', 'subkey')] + [bind(k) for k in ('subkey-binding[signing subkey]', 'subkey-binding[encryption subkey]', 'primary-key-binding')]
+    return _base3() + [revoke(k) for k in ('uid', 'key', 'subkey')] + [bind(k) for k in ('subkey-binding[signing subkey]', 'subkey-binding[encryption subkey]', 'primary-key-binding', 'subkey-binding[signing-capable subkey that refuses to cross-sign]')]
 
 
 def signature_new(with_time):
